@@ -3,6 +3,7 @@ from __future__ import annotations
 
 import ast
 
+from .. import dl
 from ..core import AnalysisError
 from ..src import Locals, call_name, dotted, mod, norm, stmt_key, walk_local, all_package_files
 
@@ -210,6 +211,9 @@ def run(cx):
 
     rule_global_state(cx, "C10-GLOBAL-STATE", mods)
 
+    # ---- C10-PROBE ---------------------------------------------------------------------------
+    rule_probe(cx, "C10-PROBE")
+
     # ---- C10-SOURCES -------------------------------------------------------------------------
     r = cx.rule("C10-SOURCES", "no nondeterministic or environment-dependent source (id/hash/random/time/environ/uuid/listdir) feeds the transpiler", floor=100)
     for m in mods[:3]:
@@ -222,6 +226,72 @@ def run(cx):
                     r.ok(None)
             elif isinstance(n, ast.Attribute) and (dotted(n) or "") in NONDET_ATTRS:
                 r.fail(f"{m.rel.split('/')[-1]}/{dotted(n)}", (m, n), f"reads {dotted(n)}")
+
+
+class ProbeSet(set):
+    """a set whose iteration order is chosen by the checker: whatever consumes it without sorting shows the order"""
+
+    def __init__(self, items, descending=False):
+        super().__init__(items)
+        self._desc = descending
+
+    def __iter__(self):
+        return iter(sorted(set.__iter__(self), reverse=self._desc))
+
+
+def rule_probe(cx, rid):
+    """emit() as a function of its input only: set-typed inputs in two iteration orders give the same text, emitting the
+    same Program twice gives the same text, and no emitter code stores into an IR node"""
+    from .. import l2, pe
+    em = mod("transpile/emitter.py")
+    am = mod("transpile/ast.py")
+    cx.consulted(em)
+    cx.consulted(am)
+    cls, fields = pe.ir_classes()
+    r = cx.rule(rid, "the firmware text does not depend on the iteration order of the sets a Program carries (helpers, measured sensors), emitting one Program object twice yields the same text (emit() does not consume or mark its input), and the emitter never assigns an attribute of an IR node", floor=4)
+
+    def build(desc):
+        us = [l2.decl_node("Ultrasonic", name=n_) for n_ in ("front", "back", "left")]
+        sv = [cls["ServoDecl"](name="s1", pin=9), cls["ServoDecl"](name="s2", pin=10)]
+        loop = [cls["VarAssign"](name="d", expr=f"__redu_ultrasonic_measure_{n_}()") for n_ in ("front", "back", "left")]
+        kw = dict(setup_body=us + sv, loop_body=loop, target_port=None, global_decls=[cls["VarDecl"](name="d", c_type="float", expr="0", global_scope=True)], functions=[])
+        for fname, ann, _d in fields["Program"]:
+            if fname in ("helpers", "ultrasonic_measurements"):
+                items = {"helpers": ["list", "len"], "ultrasonic_measurements": ["front", "back", "left"]}[fname]
+                # the parser hands over sets: probe both iteration orders
+                kw[fname] = ProbeSet(items, descending=desc)
+        try:
+            return cls["Program"](**kw)
+        except pe.IRRejected as e:
+            raise AnalysisError(f"Program refuses the probe: {e}")
+
+    texts = []
+    for desc in (False, True):
+        prog = build(desc)
+        it = pe._interp(em)
+        try:
+            o1 = it.call(em.func("emit"), [prog])
+            o2 = pe._interp(em).call(em.func("emit"), [prog])
+        except dl.Unsupported as e:
+            raise AnalysisError(f"emit() left the evaluable subset: {e}")
+        if o1.kind != "return" or o2.kind != "return":
+            raise AnalysisError(f"emit() raises on the probe program: {o1!r} / {o2!r}")
+        r.check(o1.value == o2.value, f"emit/same-Program-twice[{'descending' if desc else 'ascending'}]", (em, em.func("emit")), "emitting the same Program object a second time gives different firmware: emit() marks or consumes its input (second difference: " + next((f"{a!r} vs {b!r}" for a, b in zip(o1.value.split(chr(10)), o2.value.split(chr(10))) if a != b), "length") + ")")
+        texts.append(o1.value)
+    diff = next((f"{a!r} vs {b!r}" for a, b in zip(texts[0].split(chr(10)), texts[1].split(chr(10))) if a != b), None)
+    r.check(texts[0] == texts[1], "emit/independent-of-set-iteration-order", (em, em.func("emit")), f"the firmware differs when the Program's sets are iterated in another order ({diff}): output would follow PYTHONHASHSEED")
+    # structural twin: no store into a node attribute anywhere in the emitter
+    ir_field_names = {f[0] for fl in fields.values() for f in fl}
+    n_stores = 0
+    for q, fn in em.funcs.items():
+        for n in walk_local(fn, include_self=False):
+            if isinstance(n, (ast.Assign, ast.AugAssign, ast.AnnAssign)):
+                for t in (n.targets if isinstance(n, ast.Assign) else [n.target]):
+                    if isinstance(t, ast.Attribute) and isinstance(t.value, ast.Name) and t.value.id in ("node", "ast", "program", "decl", "fn", "branch", "stmt", "child"):
+                        n_stores += 1
+                        r.fail(f"{q}/stores-into-node[{t.value.id}.{t.attr}]", (em, n), f"`{stmt_key(n)}` writes an attribute of an IR node: the Program handed to emit() is changed by emitting it")
+    r.ok(f"{len(em.funcs)} emitter functions scanned for node stores")
+    return r
 
 
 def rule_global_state(cx, rid, mods, floor=40, only=None):
@@ -248,8 +318,23 @@ def rule_global_state(cx, rid, mods, floor=40, only=None):
                     kind = "stateful-object"
             if kind:
                 mutable_globals[name] = kind
+        scope = None
+        if only is not None:
+            # the named functions and everything they (transitively) call inside this module
+            scope = {q_ for q_ in m.funcs if any(q_ == o or q_.startswith(o + ".") for o in only)}
+            grew = True
+            while grew:
+                grew = False
+                for q_ in list(scope):
+                    for c_ in ast.walk(m.funcs[q_]):
+                        if isinstance(c_, ast.Call) and isinstance(c_.func, ast.Name):
+                            for cand in (c_.func.id, f"{q_}.{c_.func.id}", f"{q_.rsplit('.', 1)[0]}.{c_.func.id}"):
+                                if cand in m.funcs and cand not in scope:
+                                    scope.add(cand)
+                                    grew = True
+
         def _in_scope(q_):
-            return only is None or any(q_ == o or q_.startswith(o + ".") for o in only)
+            return scope is None or q_ in scope or any(q_.startswith(o + ".") for o in scope)
 
         used_by_scope = None
         if only is not None:
@@ -299,7 +384,8 @@ def rule_global_state(cx, rid, mods, floor=40, only=None):
                         r.fail(f"{q}/next[{n.args[0].id}]", (m, n), "draws from a module-level iterator/counter")
             # mutable defaults
             for d in list(fn.args.defaults) + [d for d in fn.args.kw_defaults if d is not None]:
-                bad = isinstance(d, (ast.Dict, ast.List, ast.Set, ast.ListComp, ast.DictComp, ast.SetComp)) or (isinstance(d, ast.Call) and call_name(d) in ("dict", "list", "set", "defaultdict", "collections.defaultdict"))
+                bad = isinstance(d, (ast.Dict, ast.List, ast.Set, ast.ListComp, ast.DictComp, ast.SetComp, ast.GeneratorExp)) or \
+                    (isinstance(d, ast.Call) and (call_name(d) or "") not in ("tuple", "frozenset", "str", "int", "float", "bool", "bytes", "object", "re.compile"))     # itertools.count(), set(), a fresh object ...: one instance shared by all calls
                 r.check(not bad, f"{q}/mutable-default", (m, d), "mutable default argument persists between calls", sample=None)
             for d in fn.decorator_list:
                 dn = dotted(d.func if isinstance(d, ast.Call) else d) or ""
